@@ -4,7 +4,9 @@ Protocol (one case = a configuration line followed by votes / strategy changes):
   cfg <strategy|emergency> <custom|none> <minVoters>
   setstrat <strategy> <custom|none>
   vote <K:weight:rel:conf>*       K in P E B D U X (PERMIT EXECUTE BLOCK DEFER other-action raises),
-                                  conf in <rat> | none (payload carries no confidence) | bad (non-numeric)
+                                  conf in <rat> (any: a confidence is a 0-1 quantity, out-of-range reports are clamped)
+                                  | inf | -inf (float infinities, 1e308: clamped too) | nan (not a number: a failed
+                                  voter) | none (payload carries no confidence) | bad (non-numeric)
   realvote <safe|danger|inject> <atp> <n>   fresh colony of n REAL BioAgent voters (core/agent.py), shared ATP budget
   cb <reached|failed> <none|ok|raise>       `on_quorum_reached` / `on_quorum_failed` (constructor argument before the object
                                             exists, attribute assignment afterwards); `raise`: the callback raises
@@ -55,15 +57,28 @@ DOC_PRIOR = Fraction(1, 2)             # "Start with uniform prior"
 DOC_GAIN = Fraction(2, 5)              # likelihood 0.5-0.9
 
 
+SPECIAL_CONF = ("none", "bad", "inf", "-inf", "nan")
+
+
 def frac(s):
     return Fraction(s)
+
+
+def conf_value(c):
+    """the confidence of a vote whose agent reported `c`: a 0-1 quantity ("0-1 confidence in the vote"), so a report
+    outside the range - negative, above 1, infinite - counts as the nearest bound; no report: 1"""
+    if c in ("none", "inf"):
+        return Fraction(1)
+    if c == "-inf":
+        return Fraction(0)
+    return max(Fraction(0), min(Fraction(1), Fraction(c)))
 
 
 def parse_voter(tok):
     k, w, r, c = tok.split(":")
     if k not in "PEBDUX" or len(k) != 1:
         raise ValueError(k)
-    if c not in ("none", "bad"):
+    if c not in SPECIAL_CONF:
         Fraction(c)
     return (k, None if w == "_" else Fraction(w), None if r == "_" else Fraction(r), c)
 
@@ -85,9 +100,9 @@ def parse_ballot(line):
 def cast(voter):
     """documented vote collection: (type, confidence, weight) of the vote a voter casts"""
     k, w, r, c = voter
-    if k == "X" or c == "bad":
+    if k == "X" or c in ("bad", "nan"):              # a voter that fails, or reports something that is not a number
         return ("abstain", Fraction(0), w)
-    conf = Fraction(1) if c == "none" else Fraction(c)
+    conf = conf_value(c)
     t = {"P": "permit", "E": "permit", "B": "block", "D": "defer", "U": "abstain"}[k]
     return (t, conf, w * r)
 
@@ -119,8 +134,8 @@ class Spec:
         return self.custom is None or self.custom >= 0
 
     def valid(self):
-        """Voter.Valid of Lemmas/C06.lean: weight, reliability and a numeric confidence are not negative"""
-        return all(w >= 0 and r >= 0 and (c in ("none", "bad") or Fraction(c) >= 0) for (_, w, r, c) in self.ballot)
+        """Voter.Valid of Lemmas/C06.lean: weight and reliability are not negative (any confidence may be reported)"""
+        return all(w >= 0 and r >= 0 for (_, w, r, c) in self.ballot)
 
     def bayes(self):
         pp = pb = DOC_PRIOR
@@ -235,6 +250,12 @@ class Stub:
             payload = [None, "Action is safe.", {}, {"note": 1}, 0.25, ["confidence", 1], {"Confidence": 0.9}][i % 7]
         elif c == "bad":
             payload = {"confidence": ["high", None, "", [1], "1,0", {}][i % 6]}
+        elif c == "inf":
+            payload = {"confidence": [float("inf"), "inf", 1e308, "Infinity", 1.7e308][i % 5]}
+        elif c == "-inf":
+            payload = {"confidence": [float("-inf"), "-inf", -1e308][i % 3]}
+        elif c == "nan":
+            payload = {"confidence": [float("nan"), "nan", "NaN"][i % 3]}
         else:
             f = float(Fraction(c))
             forms = [f, str(f), f, f" {f} "]
@@ -369,6 +390,8 @@ class C06(Prop):
             c = rng.choice(["0", "1/4", "1/4", "1/2", "1/2"])
         else:
             c = rng.choice(CF) if rng.random() < 0.85 else rng.choice(["1", "1/2"])
+        if rng.random() < 0.06:                           # reports that are not a 0-1 number
+            c = rng.choice(["inf", "inf", "nan", "2", "3/2", "-1/2", "-inf", "5"])
         return (k, rng.choice(W), rng.choice(REL), c)
 
     def _rand_custom(self, rng, strat):
@@ -1013,7 +1036,7 @@ class C06(Prop):
             # abstaining / deferring / failed voters are no support: without them the outcome is not more favourable
             # (the count strategy may need fewer permits for a smaller colony, so only PERMIT -> PERMIT is demanded
             # in that direction; here: giving them huge weight and confidence must not create a PERMIT)
-            b2 = [(v[0], Fraction(2), Fraction(1), v[3] if v[3] == "bad" else "1")
+            b2 = [(v[0], Fraction(2), Fraction(1), v[3] if v[3] in ("bad", "nan") else "1")
                   if cast(v)[0] in ("abstain", "defer") else v for v in ballot]
             r2 = self._ask(st, b2)
             if r2 is not None and r2[0]:
@@ -1065,9 +1088,12 @@ class C06(Prop):
             i = permits[salt % len(permits)]
             k, w, r, c = ballot[i]
             out.append(("raise_permit_weight_monotone", ballot[:i] + [(k, w * 2 + Fraction(1, 4), r, c)] + ballot[i + 1:]))
-            if c not in ("none", "bad") and Fraction(c) < 1:
+            if c not in SPECIAL_CONF and Fraction(c) < 1:
                 c2 = str(min(Fraction(1), Fraction(c) + Fraction(1, 4)))
                 out.append(("raise_permit_confidence_monotone", ballot[:i] + [(k, w, r, c2)] + ballot[i + 1:]))
+            if c not in ("none", "bad", "nan", "inf"):    # … and raised beyond every bound
+                out.append(("raise_permit_confidence_monotone",
+                            ballot[:i] + [(k, w, r, ["inf", "2", "inf"][salt % 3])] + ballot[i + 1:]))
         if idle:
             out.append(("abstain_failed_never_support", [v for i, v in enumerate(ballot) if i not in idle]))
         return out
